@@ -361,11 +361,19 @@ func (c *Ctx) LiveLinux(cs *LinuxCase, host *linuxdev.Host, o LiveOpts) *LiveRes
 	r.Trouble = world.Bubble(c.T, func() {
 		log.Start()
 		verifhook.Console = func(cmd []string, timeout time.Duration) (*expect.GExpect, error) {
-			s := sshx.New(log, nil, func() {
+			var sched *tape.Tape
+			if (o.Chunk || o.Latency) && o.SchedSeed != 0 {
+				sched = tape.New(uint64(o.SchedSeed), 7)
+			}
+			s := sshx.New(log, sched, func() {
 				synctest.Wait()
 				time.Sleep(time.Millisecond)
 				synctest.Wait()
 			})
+			s.ChunkOn, s.LatencyOn = o.Chunk, o.Latency
+			// Legal latency stays below every configured timeout (a reply later
+			// than that is the fault kind 'stall').
+			s.MaxDelay = min(time.Duration(o.Timeout)*time.Second/3, time.Duration(o.LoginTO)*time.Second/2)
 			sessions = append(sessions, s)
 			dev.Sess = s
 			log.Add("tool", "spawn %s", strings.Join(cmd, " "))
@@ -378,6 +386,8 @@ func (c *Ctx) LiveLinux(cs *LinuxCase, host *linuxdev.Host, o LiveOpts) *LiveRes
 		r.EndSeq = log.Add("tool", "exit %d", r.Res.Exit)
 		for _, s := range sessions {
 			s.Teardown()
+			c.Count("sched:split_replies", s.Splits)
+			c.Count("sched:delayed_replies", s.Delays)
 		}
 	})
 	host.Run("") // pull what scp delivered last
